@@ -291,7 +291,7 @@ def build_functions(rng, pep):
 
 
 CALLS = ["oracle", "gradient", "subgradient", "value", "call", "stationary", "fixed", "prox", "newpoint", "alias",
-         "oracle", "value", "gradient", "oracle"]
+         "oracle", "value", "gradient", "oracle", "accumulate"]
 
 
 def run_sequence(rng, calls=None, ck=None):
@@ -355,6 +355,32 @@ def run_sequence(rng, calls=None, ck=None):
             pts.extend([xn, gx])
             check_return(ck, F, xn, gx, fx, [], "inexact_proximal_step:" + opt)
             check_return(ck, F, w, v, fw, [], "inexact_proximal_step:" + opt)
+        elif c == "accumulate":
+            # total = F; total += w * k  (an objective accumulated in a loop): F itself - still known under its own name,
+            # with its samples - stays the function it was, `total` is a function of its own that denotes F + w k
+            kf = rng.choice(leaves)
+            w = rng.choice([1.0, 2.0, -0.5, 3.0])
+            w_before = {id(f_): float(c_) for f_, c_ in F.decomposition_dict.items() if c_ != 0}
+            n_before = len(F.list_of_points)
+            total = F
+            total += w * kf
+            ck.n += 1
+            w_after = {id(f_): float(c_) for f_, c_ in F.decomposition_dict.items() if c_ != 0}
+            if w_after != w_before or len(F.list_of_points) != n_before:
+                ck.v("augmented_assignment_changed_the_function_under_its_other_name",
+                     "`total = F; total += %g * k` changed F itself (weights %s -> %s): its recorded samples are no longer those of the "
+                     "function it denotes" % (w, sorted(w_before.values()), sorted(w_after.values())))
+            want = dict(w_before)
+            want[id(kf)] = want.get(id(kf), 0.0) + w
+            got = {id(f_): float(c_) for f_, c_ in total.decomposition_dict.items() if c_ != 0}
+            want = {k_: v_ for k_, v_ in want.items() if v_ != 0}
+            if set(got) != set(want) or any(abs(got[k_] - want[k_]) > 1e-12 * (1 + abs(want[k_])) for k_ in want):
+                ck.v("augmented_assignment_wrong_sum", "`total += %g * k` does not denote F + %g k" % (w, w))
+            elif total is not F and want:
+                EXPECTED_WEIGHTS[id(total)] = want
+                KEEP.append(total)
+                funcs.append(total)
+                comps.append(total)
         elif c == "newpoint":
             k = rng.randint(2, 3)
             p = None
